@@ -15,6 +15,8 @@ C03 — model of the XMILE equation pipeline of `BPTK_Py/sdcompiler`:
 * `gen`    : what `parseExpression` emits for a tree (token-level substitution into the templates)
 * `trans`  : the Python tree the emitted text is meant to denote
 * `sanitize` : model of `plugins/sanitizeNames.sanitizeName` on code-point lists (ASCII domain)
+* `okAt`, `validateFlat` : IFs in sentence positions; validation by token comparison alone
+* `smthH`, `cascade` : the delay/smooth helper `smthn` of the generated class and its definition on the grid
 -/
 namespace Bptk.C03
 open Bptk.Py
@@ -126,6 +128,8 @@ structure Cfg where
   identT : List Tok           -- rendering of identifier `probe`
   identInitT : List Tok       -- rendering of `INIT(probe)` without the template's own tokens
   unknownBuiltinRaises : Bool -- an unknown function name raises (false: the text "0" is emitted)
+  helperKeysNormalise : Bool := true  -- the delay/smooth helpers snap `t - dt` onto the time grid before using it
+                                      -- as memo key and in `t <= self.starttime` (false: raw floats, the pinned tree)
 
 def findFn (c : Cfg) (f : String) (n : Nat) : Option Tmpl :=
   c.fns.find? (fun t => t.cls == f && t.arity == n)
@@ -372,6 +376,55 @@ def validateFlat (P : XPrec) (ts : List XTok) (ir : X) : Option X :=
   match xparse P ts with
   | some x => if decide (flat x = ts) && XWL P x && decide (flat ir = ts) && okAt true ir then some x else none
   | none => none
+
+/-! ### The delay / smooth helper `smthn` of the generated class (DELAY1/3/N, SMTH3/N)
+
+`s['stock<y>'](t) = init if t <= starttime else mem('stock<y>', t-dt) + dt * mem('changeInStock<y>', t-dt)`,
+`s['changeInStock<y>'](t) = (source(t) - mem('stock<y>', t)) / (averaging_time / n)` with source = the input stream for
+the first stage and the previous stage otherwise; `mem` keeps a private memo keyed on its time argument. -/
+
+/-- how the helper handles points in time: `prev t` = `t - dt` as computed, `gnorm` = `grid_time`,
+`isStart t` = `t <= self.starttime` -/
+structure HTime (T : Type) where
+  prev : T → T
+  gnorm : T → T
+  isStart : T → Bool
+
+/-- what `mem` does to its time argument (probed Cfg fact) -/
+def HTime.norm {T : Type} (c : Cfg) (ht : HTime T) : T → T := if c.helperKeysNormalise then ht.gnorm else id
+
+/-- the arithmetic of one stage, uninterpreted: `a + b`, `a - b`, `dt * x`, `x / (averaging_time / n)` -/
+structure HArith (α : Type) where
+  add : α → α → α
+  sub : α → α → α
+  mulDt : α → α
+  divTau : α → α
+
+/-- stage `y` (0-based) of the helper at time `t`, reached through `mem`; `inp` = `self.memoize(inputstream, ·)`,
+`init` = the start value computed at the time on which the start test succeeded; memoisation does not change
+values (the memo is private to one call and the equations are functions of time), so it is not modelled -/
+def smthH {T α : Type} (nrm : T → T) (ht : HTime T) (A : HArith α) (inp init : T → α) : Nat → Nat → T → Option α
+  | 0, _, _ => none
+  | fuel + 1, y, t =>
+    let tn := nrm t
+    if ht.isStart tn then some (init tn) else
+    let tp := ht.prev tn
+    match smthH nrm ht A inp init fuel y tp, smthH nrm ht A inp init fuel y (nrm tp),
+      (match y with
+       | 0 => some (inp (nrm tp))
+       | y' + 1 => smthH nrm ht A inp init fuel y' (nrm tp)) with
+    | some s, some s2, some src => some (A.add s (A.mulDt (A.divTau (A.sub src s2))))
+    | _, _, _ => none
+
+/-- the definition on the time grid: a cascade of first-order stocks, each advanced once per interval -/
+def cascade {α : Type} (A : HArith α) (inp : Nat → α) (init : α) : Nat → Nat → α
+  | 0, _ => init
+  | k + 1, y =>
+    let s := cascade A inp init k y
+    let src := match y with
+      | 0 => inp k
+      | y' + 1 => cascade A inp init k y'
+    A.add s (A.mulDt (A.divTau (A.sub src s)))
 
 /-! ### S-expression of an XMILE tree (for comparison with the harness's own parser) -/
 
